@@ -1010,6 +1010,12 @@ def judge_rrt(ck, hbin, jobs):
                 ck.count("rrt-motions-final", int(o.split()[0][2:]))
         ck.sample({"rrt": rrt_line(job), "info": info[:3]}, limit=12)
         fails = oracle_rrt(job, script, impl) if script else [("rrt-crash", "no output")]
+        for l in info:
+            if l.startswith("edges="):
+                f = parse_flags(l)
+                ck.count("rrt-edges-revalidated", int(f["edges"]))
+                if f["invalid"] != "0":
+                    fails.append(("rrt-edge-invalid", "%s tree edge(s) are rejected by the motion validator in both directions (first: motion %s and its parent)" % (f["invalid"], f["first"])))
         if rc != 0:
             fails.append(("rrt-crash", "harness exited with code %s: %s" % (rc, (err or "")[-300:])))
         inconclusive = any(("tie=1" in m or "starved=1" in m or "fuel=1" in m) for m in model if m.startswith("it="))
